@@ -1,14 +1,36 @@
+from pyvc.table_engine import TableEngine
 ID = "C07"
 LEVEL = "other"
-CONTRACT_MODULES = []
-FUNCTIONS = []
+CONTRACT_MODULES = ["contracts.table_cache"]
+FUNCTIONS = ["Table._make_cache", "Table._get_cache", "Table._get_row_cache", "Table._get_row_cache_raise"]
 RAC = "rac/c07.py"
 RAC_BUDGET = {"quick": 60, "thorough": 900}
 DESIGN_REF = "DESIGN.md section 4, C07"
-TECHNIQUE = "run-time contracts against a linear-scan oracle (bounded); deductive part under construction"
-TRUSTED = ["numpy", "Cython build of refs.py (not used by table.py)"]
-ASSUMPTIONS = ["names contain no separator substring (:: << >>)", "column arrays are not shared with another table that mutates them in place"]
-BOUNDED = ["everything (this revision)"]
-EXPLANATION = "bounded run-time contract check"
-LEVEL_TEXT = "bounded"
-LEVEL_NOTE = "bounded"
+TECHNIQUE = ("contract-based deductive verification of the row-name cache (pyvc: _make_cache builds exactly the scan of the "
+             "current index column, _get_cache keeps the class invariant CacheOK, _get_row_cache(_raise) return the scan "
+             "position or None/KeyError; z3) + run-time contracts against a linear-scan oracle after every sequence of API updates")
+TRUSTED = ["numpy-lite model: _data[k] is a read-only column view inside the verified functions; dict keyed by 2-tuples as an "
+           "injective pair function; dict.items() as an arbitrary enumeration whose values are read at loop entry; enumerate",
+           "numpy itself (array stores, object arrays), Python string methods", "z3 / cvc5"]
+ASSUMPTIONS = [
+    "names contain no separator substring (:: << >>): _split_name_count_offset is checked at run time only",
+    "column arrays are not shared with another table that mutates them in place (row slices and _copy share arrays)",
+    "the unique-label array (third result of _make_cache, f-strings) is outside the proved contract; get_index_unique is "
+    "checked at run time",
+    "uniqueness of 'the' row with a given name and occurrence number is a property of the specification function "
+    "(prefix counts strictly increase on the rows carrying the name)",
+]
+BOUNDED = [
+    "class invariant CacheOK across Table.__setitem__/__setattr__/__delitem__/pop/_append_row/_concatenate_table: run-time "
+    "only (all update sequences of length <=2 on all index columns of length <=3/4, cache warmed before each update)",
+    "_split_name_count_offset (string parsing), __getitem__/__setitem__ row-designator dispatch, __floordiv__, "
+    "rows.get_index, cols.get_index_unique: run-time only (all designator spellings, reads and writes)",
+]
+EXPLANATION = ("proved for every index column, name, count and offset: the cache built by _make_cache is complete, sound and "
+               "count-exact w.r.t. a scan (prefix-count specification function), _get_cache establishes/keeps CacheOK, "
+               "_get_row_cache returns None iff no row has the name with that occurrence number (negative counts from the "
+               "last) and otherwise such a row's position plus the offset, _get_row_cache_raise raises KeyError exactly "
+               "then; the coherence of the cache with later updates is the bounded part")
+LEVEL_TEXT = ("Mixed: the four cache functions are proved (61 obligations, z3); invariant preservation by the mutators and the "
+              "string/tuple designator dispatch are run-time contract checks against a linear-scan oracle. Never claimed as proof.")
+LEVEL_NOTE = "See TRUSTED/BOUNDED in the evidence file."
